@@ -1159,7 +1159,10 @@ public:
 
     /// Sets the suffix value.
     void SetValue(int index, T value) {
-      suffix_.set_value(index, value);
+      // The suffix can have no such item, e.g., an objective suffix
+      // (nsol, npool) of a model without objectives.
+      if (index >= 0 && index < suffix_.num_values())
+        suffix_.set_value(index, value);
     }
   };
 
